@@ -22,6 +22,20 @@ theorem NaOut.fine {b : Buf} {o : Nat} {pf : PFromBody} (h : NaOut b o pf) : NaF
 theorem NaFine_new (b : Buf) : NaFine b {} := by
   refine ⟨Nat.le_refl _, ?_, ?_, ?_, ?_, ?_, rfl⟩ <;> (unfold PField.inside; simp)
 
+/-- every reported field of the list lies before the offset `o` (the part of C05: "inside the consumed region") -/
+structure CtIn (b : Buf) (o : Nat) (c : PContacts) : Prop where
+  lhv : c.lastHVal.inside o
+  stored : ∀ k, k < c.n → k < c.vals.size → NaOut b o c.vals[k]!
+  lastI : NaOut b o c.last
+  firstI : NaOut b o c.first
+
+theorem CtIn.mono {b : Buf} {o o' : Nat} {c : PContacts} (h : CtIn b o c) (h1 : o ≤ o') (h2 : o' ≤ b.size) :
+    CtIn b o' c :=
+  ⟨PField.inside_mono h.lhv h1, fun k a1 a2 => (h.stored k a1 a2).mono h1 h2, h.lastI.mono h1 h2, h.firstI.mono h1 h2⟩
+
+theorem NaOut_new (b : Buf) (o : Nat) (ho : o ≤ b.size) : NaOut b o {} :=
+  ⟨ho, PField.inside_zero _, PField.inside_zero _, PField.inside_zero _, PField.inside_zero _, PField.inside_zero _, rfl⟩
+
 /-- loop invariant of the contact-values loop at offset `offs` -/
 structure CtSafe (b : Buf) (offs : Nat) (c : PContacts) : Prop where
   ho : offs ≤ b.size
@@ -32,6 +46,7 @@ structure CtSafe (b : Buf) (offs : Nat) (c : PContacts) : Prop where
   lastF : NaFine b c.last
   firstF : NaFine b c.first
   pnc : c.pnc = false
+  inn : CtIn b offs c
 
 /-- what holds of a contacts object whatever the verdict -/
 structure CtOut (b : Buf) (c : PContacts) : Prop where
@@ -92,6 +107,39 @@ theorem step_out (b : Buf) (c : PContacts) (pf : PFromBody) (lo o' : Nat) (hfit 
     · exact hpf.fine
     · exact hfF
 
+theorem setCur_storedP (P : PFromBody → Prop) (c : PContacts) (pf : PFromBody)
+    (h1 : ∀ k, k < c.n → k < c.vals.size → P c.vals[k]!) (h2 : P pf) :
+    ∀ k, k < c.n + 1 → k < c.vals.size → P (c.setCur pf).vals[k]! := by
+  intro k hk hs
+  by_cases hkn : k = c.n
+  · subst hkn; rw [setCur_get_n c pf hs]; exact h2
+  · rw [setCur_vals_ne c pf k (by omega)]; exact h1 k (by omega) hs
+
+theorem setCur_lastP (P : PFromBody → Prop) (c : PContacts) (pf : PFromBody) (h1 : P c.last) (h2 : P pf) :
+    P (c.setCur pf).last := by
+  unfold PContacts.setCur; split
+  · exact h1
+  · exact h2
+
+/-- … and every field still lies before the new offset -/
+theorem step_in (b : Buf) (c : PContacts) (pf : PFromBody) (lo o o' : Nat) (hfit : b.size ≤ 65535)
+    (hin : CtIn b o c) (hoo : o ≤ o') (hpf : NaOut b o' pf) (hl : c.lastHVal.inside lo) (hv : lo ≤ pf.v.offs)
+    (hp : c.pnc = false) : CtIn b o' ((c.setCur pf).account pf) := by
+  have s1 := setCur_scalars c pf
+  have ha := account_safe b (c.setCur pf) pf lo o' hfit hpf (by rw [s1.2.2.2.1]; exact hl) hv (by rw [s1.2.2.2.2]; exact hp)
+  have hm := hin.mono hoo hpf.ho
+  refine ⟨ha.2, ?_, ?_, ?_⟩
+  · intro k hk hs
+    rw [account_n, setCur_n] at hk
+    rw [account_vals, setCur_size] at hs
+    rw [account_vals]
+    exact setCur_storedP (NaOut b o') c pf hm.stored hpf k hk hs
+  · rw [account_last]; exact setCur_lastP (NaOut b o') c pf hm.lastI hpf
+  · rw [account_first, setCur_first]
+    split
+    · exact hpf
+    · exact hm.firstI
+
 /-- between header lines: the object is sane and the next value will be parsed into a zero element -/
 structure CtIdle (b : Buf) (c : PContacts) : Prop where
   out : CtOut b c
@@ -108,10 +156,21 @@ theorem CtOut.wrap {b : Buf} {c : PContacts} (h : CtOut b c) : CtOut b c.wrap :=
   · unfold PContacts.wrap; split <;> exact h.firstF
 
 /-- the object with which the parse of a new header line starts -/
-theorem CtIdle.start {b : Buf} {c : PContacts} (h : CtIdle b c) (o : Nat) (ho : o ≤ b.size) (k : Nat) :
-    CtSafe b o { c.wrap with hNo := k, lastHVal := {} } := by
+theorem CtIn.wrap {b : Buf} {o : Nat} {c : PContacts} (h : CtIn b o c) (ho : o ≤ b.size) : CtIn b o c.wrap := by
+  obtain ⟨a1, a2, a3, a4, a5, a6, a7⟩ := wrap_scalars c
+  refine ⟨by rw [a6]; exact h.lhv, fun k hk hs => ?_, ?_, ?_⟩
+  · rw [a1] at hk; rw [a2] at hs ⊢; exact h.stored k hk hs
+  · unfold PContacts.wrap; split
+    · exact NaOut_new b o ho
+    · exact h.lastI
+  · unfold PContacts.wrap; split <;> exact h.firstI
+
+theorem CtIdle.start {b : Buf} {c : PContacts} (h : CtIdle b c) (o : Nat) (ho : o ≤ b.size) (k : Nat)
+    (hin : CtIn b o c) : CtSafe b o { c.wrap with hNo := k, lastHVal := {} } := by
   have hw := h.out.wrap
-  refine ⟨ho, ?_, h.clean, ⟨o, PField.inside_zero o, Nat.le_refl _, ?_⟩, hw.stored, hw.lastF, hw.firstF, hw.pnc⟩
+  have hiw := hin.wrap ho
+  refine ⟨ho, ?_, h.clean, ⟨o, PField.inside_zero o, Nat.le_refl _, ?_⟩, hw.stored, hw.lastF, hw.firstF, hw.pnc,
+    ⟨PField.inside_zero o, hiw.stored, hiw.lastI, hiw.firstI⟩⟩
   · show NaEntry b o c.wrap.cur
     rw [h.cur]; exact NaEntry_new b o ho
   · show VLo o c.wrap.cur
@@ -120,7 +179,8 @@ theorem CtIdle.start {b : Buf} {c : PContacts} (h : CtIdle b c) (o : Nat) (ho : 
 theorem contactsLoop_safe (b : Buf) (offs : Nat) (c : PContacts) (hfit : b.size ≤ 65535) (h : CtSafe b offs c) :
     CtOut b (contactsLoop b offs c).2.2 ∧
     ((contactsLoop b offs c).2.1 = .moreBytes → CtSafe b (contactsLoop b offs c).1 (contactsLoop b offs c).2.2) ∧
-    ((contactsLoop b offs c).2.1 = .ok → CtIdle b (contactsLoop b offs c).2.2 ∧ (contactsLoop b offs c).1 ≤ b.size) ∧
+    ((contactsLoop b offs c).2.1 = .ok → CtIdle b (contactsLoop b offs c).2.2 ∧ (contactsLoop b offs c).1 ≤ b.size ∧
+      CtIn b (contactsLoop b offs c).1 (contactsLoop b offs c).2.2) ∧
     (contactsLoop b offs c).1 ≤ b.size := by
   induction hk : b.size - offs using Nat.strongRecOn generalizing offs c with
   | _ k ih =>
@@ -152,7 +212,9 @@ theorem contactsLoop_safe (b : Buf) (offs : Nat) (c : PContacts) (hfit : b.size 
         (hvd.1 (Or.inl rfl))
       have hf := (parseNameAddrPVal_post HdrContact b offs c.cur hp (Or.inl rfl)).1
       have d := done_facts c pf h.clean hf
-      exact ⟨hso.1, (fun hh => by cases hh), (fun _ => ⟨⟨hso.1, d.2.1, d.1⟩, hsafe.1.ho⟩), hsafe.1.ho⟩
+      have hge : offs ≤ next := (naPVal_ok_range HdrContact b offs c.cur h.ho hp (Or.inl rfl)).2.1
+      have hin := step_in b c pf lo offs next hfit h.inn hge hsafe.1 hl1 (hvd.1 (Or.inl rfl)) h.pnc
+      exact ⟨hso.1, (fun hh => by cases hh), (fun _ => ⟨⟨hso.1, d.2.1, d.1⟩, hsafe.1.ho, hin⟩), hsafe.1.ho⟩
     case moreValues =>
       have hso := step_out b c pf lo next hfit (fun _ => Or.inr trivial) h.stored h.lastF h.firstF h.pnc hsafe.1 hl1
         (hvd.1 (Or.inr rfl))
@@ -163,7 +225,7 @@ theorem contactsLoop_safe (b : Buf) (offs : Nat) (c : PContacts) (hfit : b.size 
       have hlh : (c.next pf).lastHVal.inside next := by unfold PContacts.next; split <;> exact hso.2
       have hnsafe : CtSafe b next (c.next pf) := by
         refine ⟨hsafe.1.ho, by rw [hcl.2]; exact NaEntry_new b next hsafe.1.ho, hcl.1,
-          ⟨next, hlh, Nat.le_refl _, by rw [hcl.2]; exact Or.inl rfl⟩, ?_, ?_, ?_, ?_⟩
+          ⟨next, hlh, Nat.le_refl _, by rw [hcl.2]; exact Or.inl rfl⟩, ?_, ?_, ?_, ?_, ?_⟩
         · intro k hk hs
           rw [next_n] at hk
           rw [next_vals, setCur_size] at hs
@@ -174,6 +236,18 @@ theorem contactsLoop_safe (b : Buf) (offs : Nat) (c : PContacts) (hfit : b.size 
           · exact NaFine_new b
         · unfold PContacts.next; split <;> exact hso.1.firstF
         · unfold PContacts.next; split <;> exact hso.1.pnc
+        · have hge : offs ≤ next := (naPVal_ok_range HdrContact b offs c.cur h.ho hp (Or.inr rfl)).2.1
+          have hin := step_in b c pf lo offs next hfit h.inn hge hsafe.1 hl1 (hvd.1 (Or.inr rfl)) h.pnc
+          refine ⟨hlh, fun k hk hs => ?_, ?_, ?_⟩
+          · rw [next_n] at hk
+            rw [next_vals, setCur_size] at hs
+            rw [next_vals]
+            have := hin.stored k (by rw [account_n, setCur_n]; exact hk) (by rw [account_vals, setCur_size]; exact hs)
+            rw [account_vals] at this; exact this
+          · unfold PContacts.next; split
+            · exact hin.lastI
+            · exact NaOut_new b next hsafe.1.ho
+          · unfold PContacts.next; split <;> exact hin.firstI
       by_cases hg : offs < next ∧ next ≤ b.size
       · rw [if_pos hg]
         exact ih (b.size - next) (by omega) next (c.next pf) hnsafe rfl
@@ -184,8 +258,20 @@ theorem contactsLoop_safe (b : Buf) (offs : Nat) (c : PContacts) (hfit : b.size 
       have s1 := setCur_scalars c pf
       have hE := hsafe.2 rfl
       have hcs : CtSafe b next (c.setCur pf) := by
+        have hgeM : offs ≤ next := by
+          have := parseNameAddrPVal_more_range HdrContact b offs c.cur (by
+            rcases h.cur with hc | hc
+            · exact Or.inl hc.1
+            · exact Or.inr ⟨hc.2.hi, hc.2.pend, hc.2.vend⟩) hp
+          omega
+        have hmI := h.inn.mono hgeM hsafe.1.ho
         refine ⟨hsafe.1.ho, by rw [setCur_cur]; exact hE, ?_, ⟨lo, by rw [s1.2.2.2.1]; exact hl1, ?_, by rw [setCur_cur]; exact hvd.2 rfl⟩,
-          ?_, setCur_lastF b c pf h.lastF hsafe.1.fine, by rw [setCur_first]; exact h.firstF, by rw [s1.2.2.2.2]; exact h.pnc⟩
+          ?_, setCur_lastF b c pf h.lastF hsafe.1.fine, by rw [setCur_first]; exact h.firstF, by rw [s1.2.2.2.2]; exact h.pnc,
+          ⟨by rw [s1.2.2.2.1]; exact hmI.lhv,
+           (fun k hk hs => by
+              rw [setCur_n] at hk; rw [setCur_size] at hs
+              rw [setCur_vals_ne c pf k (by omega)]; exact hmI.stored k hk hs),
+           setCur_lastP (NaOut b next) c pf hmI.lastI hsafe.1, by rw [setCur_first]; exact hmI.firstI⟩⟩
         · refine ⟨fun k h1 h2 => ?_, fun h1 => ?_⟩
           · rw [setCur_n] at h1; rw [setCur_size] at h2
             rw [setCur_vals_ne c pf k (by omega)]; exact h.clean.1 k h1 h2
@@ -220,7 +306,8 @@ theorem CtSafe.wrap {b : Buf} {o : Nat} {c : PContacts} (h : CtSafe b o c) : CtS
       unfold PContacts.cur; rw [if_neg (by show ¬ c.n < c.vals.size; omega)]
     obtain ⟨lo, hl1, hl2, _⟩ := h.lo
     exact ⟨h.ho, by rw [hcur]; exact NaEntry_new b o h.ho, ⟨h.clean.1, fun _ => rfl⟩,
-      ⟨lo, hl1, hl2, by rw [hcur]; exact Or.inl rfl⟩, h.stored, NaFine_new b, h.firstF, h.pnc⟩
+      ⟨lo, hl1, hl2, by rw [hcur]; exact Or.inl rfl⟩, h.stored, NaFine_new b, h.firstF, h.pnc,
+      ⟨h.inn.lhv, h.inn.stored, NaOut_new b o h.ho, h.inn.firstI⟩⟩
   · exact h
 
 theorem bump_wrap (c : PContacts) (k : Nat) :
@@ -231,24 +318,27 @@ theorem bump_wrap (c : PContacts) (k : Nat) :
 theorem parseAllContactValues_safe (b : Buf) (o : Nat) (c : PContacts) (hfit : b.size ≤ 65535) (h : CtSafe b o c) :
     CtOut b (parseAllContactValues b o c).2.2 ∧
     ((parseAllContactValues b o c).2.1 = .moreBytes → CtSafe b (parseAllContactValues b o c).1 (parseAllContactValues b o c).2.2) ∧
-    ((parseAllContactValues b o c).2.1 = .ok → CtIdle b (parseAllContactValues b o c).2.2 ∧ (parseAllContactValues b o c).1 ≤ b.size) ∧
+    ((parseAllContactValues b o c).2.1 = .ok → CtIdle b (parseAllContactValues b o c).2.2 ∧ (parseAllContactValues b o c).1 ≤ b.size ∧
+      CtIn b (parseAllContactValues b o c).1 (parseAllContactValues b o c).2.2) ∧
     (parseAllContactValues b o c).1 ≤ b.size := by
   rw [parseAllContactValues_eq_wrap]
   exact contactsLoop_safe b o c.wrap hfit h.wrap
 
 /-- … and starting the value list of a new Contact header line -/
 theorem parseAllContactValues_safe_new (b : Buf) (o : Nat) (c : PContacts) (k : Nat) (hfit : b.size ≤ 65535)
-    (ho : o ≤ b.size) (h : CtIdle b c) :
+    (ho : o ≤ b.size) (h : CtIdle b c) (hin : CtIn b o c) :
     CtOut b (parseAllContactValues b o { c with hNo := k, lastHVal := {} }).2.2 ∧
     ((parseAllContactValues b o { c with hNo := k, lastHVal := {} }).2.1 = .moreBytes →
       CtSafe b (parseAllContactValues b o { c with hNo := k, lastHVal := {} }).1
         (parseAllContactValues b o { c with hNo := k, lastHVal := {} }).2.2) ∧
     ((parseAllContactValues b o { c with hNo := k, lastHVal := {} }).2.1 = .ok →
       CtIdle b (parseAllContactValues b o { c with hNo := k, lastHVal := {} }).2.2 ∧
-      (parseAllContactValues b o { c with hNo := k, lastHVal := {} }).1 ≤ b.size) ∧
+      (parseAllContactValues b o { c with hNo := k, lastHVal := {} }).1 ≤ b.size ∧
+      CtIn b (parseAllContactValues b o { c with hNo := k, lastHVal := {} }).1
+        (parseAllContactValues b o { c with hNo := k, lastHVal := {} }).2.2) ∧
     (parseAllContactValues b o { c with hNo := k, lastHVal := {} }).1 ≤ b.size := by
   rw [parseAllContactValues_eq_wrap, bump_wrap]
-  exact contactsLoop_safe b o _ hfit (h.start o ho k)
+  exact contactsLoop_safe b o _ hfit (h.start o ho k hin)
 
 theorem CtIdle_new (b : Buf) (k : Nat) : CtIdle b ({ vals := Array.replicate k {} } : PContacts) := by
   have hw : (({ vals := Array.replicate k {} } : PContacts)).wrap = { vals := Array.replicate k {} } := by
@@ -261,6 +351,9 @@ theorem CtIdle_new (b : Buf) (k : Nat) : CtIdle b ({ vals := Array.replicate k {
     unfold PContacts.cur; split
     · rename_i h; simp at h; simp [h]
     · rfl
+
+theorem CtIn_new (b : Buf) (o : Nat) (ho : o ≤ b.size) (k : Nat) : CtIn b o ({ vals := Array.replicate k {} } : PContacts) :=
+  ⟨PField.inside_zero _, (fun j hj => by cases hj), NaOut_new b o ho, NaOut_new b o ho⟩
 
 theorem CtSafe.idleOut {b : Buf} {o : Nat} {c : PContacts} (h : CtSafe b o c) : CtOut b c := by
   obtain ⟨lo, hl1, hl2, _⟩ := h.lo
